@@ -9,11 +9,14 @@ def plan(tier):
     th = tier == 'thorough'
     qs, corpus = [], []
     for cfg in ((0, 3, 1, 2) if th else (0, 3)):
-        d = ['-DMODE_USAGE', '-DCFG=%d' % cfg, '-DPMAX=%d' % (16 if th else 8), '-DCONCRETE_NAMES']
-        pmax = 16 if th else 8
+        # the larger shapes cost one symbolic execution of usage() per possible prior length (DESIGN 11.5): quick keeps that range short for them
+        pmax = (16 if cfg == 0 else 8) if th else (8 if cfg == 0 else 3)
+        d = ['-DMODE_USAGE', '-DCFG=%d' % cfg, '-DPMAX=%d' % pmax, '-DCONCRETE_NAMES']
         prof = [[v] for v in range(pmax + 1)]      # every value of the one symbolic scalar is profiled: the loop bounds are exact in the first round
-        qs.append(Query('usage_cfg%d' % cfg, d, ['prior content of five or more bytes', 'no prior content'], unwind=2, hardcap=340, est_gb=10, timeout=3000 if th else 1500, profile=prof, harness_unwind=405, extra_cbmc=['--max-field-sensitivity-array-size', '512'],
-                        sample={'declaration': CFG[cfg], 'symbolic': 'the one-byte long names, the number of bytes already in the stream (0..8)', 'streams': 'fresh stringstream, stringstream with prior content, non-seekable cout'}))
+        wit = ['prior content of five or more bytes' if pmax >= 5 else 'prior content of two or more bytes', 'no prior content']
+        qs.append(Query('usage_cfg%d' % cfg, d, wit, unwind=2, hardcap=340, est_gb=10, timeout=7200 if th else 1500, profile=prof, harness_unwind=405, floor={r'k_usage\.\d+$': pmax + 2},
+                        extra_cbmc=['--max-field-sensitivity-array-size', '512'],
+                        sample={'declaration': CFG[cfg], 'symbolic': 'the number of bytes already in the stream (0..%d)' % pmax, 'streams': 'fresh stringstream, stringstream with prior content, non-seekable cout'}))
         corpus += [(d, p) for p in prof[::4]]
     units = []
     for cfg, cap in ((0, 110), (1, 330), (2, 300), (3, 300)):
@@ -21,7 +24,7 @@ def plan(tier):
                           cxx_defs=['-DNITRO_VERIF_NO_MESSAGES'], queries=[q for q in qs if q.name == 'usage_cfg%d' % cfg], corpus=[c for c in corpus if '-DCFG=%d' % cfg in c[0]], wrap=['getenv']))
     units = [u_ for u_ in units if u_.queries]
     return Runner('C15', tier, units,
-                  bounds={'declarations': 'four concrete shapes (quick: two) with symbolic one-byte names', 'prior_stream_content': '0..8 bytes (thorough: 0..16), symbolic', 'wrapping_law': 'not decided as a law (out of reach, DESIGN 11.5); the produced texts are checked for width and word order'},
+                  bounds={'declarations': 'four concrete shapes (quick: two) with symbolic one-byte names', 'prior_stream_content': 'symbolic; quick: 0..8 bytes for the single-toggle shape, 0..3 for the wide-entry shape; thorough: 0..16 / 0..8 for all four', 'wrapping_law': 'not decided as a law (out of reach, DESIGN 11.5); the produced texts are checked for width and word order'},
                   outside=['descriptions / names / defaults of arbitrary length at the real 40/80 geometry beyond the four shapes', 'more than two groups', 'the wrapping law for descriptions of arbitrary word lengths'],
                   assumptions=['std::cout is the non-seekable stream core of the vstd model (tellp() == -1); natively the replay connects std::cout to a pipe',
                                'real libstdc++ std::sort (header-only) is in the IR'])
